@@ -614,54 +614,41 @@ func (m *Machine) localBindings(st *State, fr *Frame, header *ssa.BasicBlock, na
 	}
 }
 
-// findNamedValue finds the SSA value of a local variable that is not loop-carried:
-// go/ssa names no such values, so we use the function's syntax: the variable's defining
-// identifier position equals the position of the defining instruction.
+// findNamedValue finds the current SSA value of a local variable that is not loop-carried,
+// using the DebugRef instructions go/ssa emits in GlobalDebug mode (each names the value a
+// source variable holds at that point). The latest one dominating the header wins.
 func (m *Machine) findNamedValue(fr *Frame, header *ssa.BasicBlock, name string) (Value, bool) {
-	info := m.P.Pkg.TypesInfo
-	syn := fr.fn.Syntax()
-	if syn == nil {
-		return nil, false
-	}
-	var obj types.Object
-	for id, o := range info.Defs {
-		if o != nil && id.Name == name && id.Pos() >= syn.Pos() && id.End() <= syn.End() {
-			if _, isVar := o.(*types.Var); isVar {
-				obj = o
-				break
-			}
-		}
-	}
-	if obj == nil {
-		return nil, false
-	}
 	var best ssa.Value
 	for _, b := range fr.fn.Blocks {
-		if !b.Dominates(header) || b == header {
+		if b != header && !b.Dominates(header) {
 			continue
 		}
 		for _, ins := range b.Instrs {
-			v, ok := ins.(ssa.Value)
-			if !ok {
+			d, ok := ins.(*ssa.DebugRef)
+			if !ok || d.IsAddr {
 				continue
 			}
-			if v.Pos() == obj.Pos() || m.defines(ins, obj) {
-				if _, ok := fr.env[v]; ok {
-					best = v
-				}
+			obj := d.Object()
+			if obj == nil || obj.Name() != name {
+				continue
+			}
+			if _, ok := obj.(*types.Var); !ok {
+				continue
+			}
+			if _, ok := fr.env[d.X]; ok {
+				best = d.X
+			} else if _, isConst := d.X.(*ssa.Const); isConst {
+				best = d.X
 			}
 		}
 	}
 	if best != nil {
+		if c, ok := best.(*ssa.Const); ok {
+			return m.constValue(nil, c), true
+		}
 		return fr.env[best], true
 	}
 	return nil, false
-}
-
-func (m *Machine) defines(ins ssa.Instruction, obj types.Object) bool {
-	// assignment "x := f()" : the call instruction's position is the call's Lparen, not x.
-	// Use the enclosing assignment statement found through position containment.
-	return false
 }
 
 // enterLoopHeader implements loop cutting. It returns false if the path ends here.
